@@ -234,3 +234,62 @@ def mon_c14(sn, faulty):
     if len(upd) > 1:
         bad.append("Parallel: %d pods taken down for update in one reconcile" % len(upd))
     return bad
+
+
+def mon_c11(sn):
+    bad = []
+    if not sn.ok:
+        return bad
+    writes = [c for c in sn.calls if c["verb"] not in ("list", "get")]
+    if sn.paused:
+        if sn.calls:
+            bad.append("paused set: the reconcile issued calls %s" % [c["verb"] + " " + c["res"] for c in sn.calls][:4])
+        if sn.obs["result"] != "ok":
+            bad.append("paused set: reconcile did not return success (%s)" % sn.obs["result"])
+    if sn.deleting:
+        for c in writes:
+            if c["res"] in ("pods", "persistentvolumeclaims"):
+                bad.append("set being deleted: %s %s %s" % (c["verb"], c["res"], c["name"]))
+            if c["res"] == "controllerrevisions" and c["verb"] == "patch":
+                bad.append("set being deleted: ControllerRevision %s adopted" % c["name"])
+    return bad
+
+
+def mon_c12(sn):
+    bad = []
+    if not sn.ok or not sn.domain_ok:
+        return bad
+    s = sn.set
+    # revisions the set can find: listed by its selector labels or its upgrade marker, orphan or its own
+    revnames = {r["name"] for r in sn.sc["api"]["revs"]
+                if (r["owner"] is None or r["owner"]["uid"] == s["uid"]) and not r["labels_nil"]
+                and (r["match"] or r["marker"] == s["name"])}
+    pod_writes = [c for c in sn.calls if c["res"] == "pods" and c["verb"] in ("create", "delete")]
+    for c in sn.calls:
+        if not (c["verb"] == "update" and c["res"] == "statefulsets" and c.get("status")):
+            continue
+        st = c["status"]
+        for k in ("ready", "current", "updated"):
+            if not (0 <= st[k] <= st["replicas"]):
+                bad.append("status written with %sReplicas=%d outside [0, replicas=%d]" % (k, st[k], st["replicas"]))
+        if st["observedGeneration"] != s["gen"]:
+            bad.append("status written with observedGeneration %d, the reconciled generation is %d" % (st["observedGeneration"], s["gen"]))
+        api_set = sn.sc["api"].get("set")
+        if api_set and not c.get("err") and st["observedGeneration"] < api_set["status"]["observedGeneration"] and api_set["status"]["observedGeneration"] <= api_set["gen"]:
+            bad.append("status write lowered observedGeneration from %d to %d" % (api_set["status"]["observedGeneration"], st["observedGeneration"]))
+        cur0 = s["status"]["currentRevision"]
+        if cur0 in revnames and st["currentRevision"] != cur0:
+            allup = all(p["rev"] == st["updateRevision"] and p["phase"] == "Running" and p["ready"] for p in sn.claimed)
+            if not (s["strategy"] == "RollingUpdate" and st["currentRevision"] == st["updateRevision"] and allup and not pod_writes):
+                bad.append("currentRevision changed from %s to %s although not every pod is at the update revision and Ready" % (cur0, st["currentRevision"]))
+        if not pod_writes:
+            n = len(sn.claimed)
+            rr = sum(1 for p in sn.claimed if p["phase"] == "Running" and p["ready"])
+            upd = sum(1 for p in sn.claimed if p["phase"] != "" and not p["term"] and p["rev"] == st["updateRevision"])
+            if st["replicas"] != n or st["ready"] != rr or st["updated"] != upd:
+                bad.append("status counters (%d/%d/upd %d) are not the census of the claimed pods (%d/%d/upd %d)" % (st["replicas"], st["ready"], st["updated"], n, rr, upd))
+    return bad
+
+
+def mon_c15(sn):
+    return ["the controller panicked: " + sn.obs.get("msg", "")] if sn.obs["result"] == "panic" else []
